@@ -498,7 +498,7 @@ def run(ctx):
     corr.info["stacks_reject_auto"] = len(g["autos"])
     corr.info["conversion_pairs"] = len(g["convs"])
     from harness import ldlib      # the kind model knows float and double; stacks over long double coordinates are compiled and run here
-    ldlib.part(ctx, corr, ["clamp", "backup", "nn", "linear", "affine"], "compile_matrix", cfgs=("dbg",))
+    ldlib.part(ctx, corr, ["clamp", "backup", "nn", "linear", "affine"], "compile_matrix", cfgs=("dbg",), compile_is_violation=True)
     if not ctx.quick:
         cuda_subcheck(ctx, corr)
     corr.notes.append("catalogue gaps: identity's first static_assert (equal dimensions) and linear's is_object assert cannot be violated by any "
@@ -514,7 +514,7 @@ def replay(ctx):
         from harness import ldlib
         corr = Corr()
         corr.add_obl("compile_matrix")
-        ldlib.part(ctx, corr, c["ops"], "compile_matrix", cfgs=(c.get("cfg", "dbg"),))
+        ldlib.part(ctx, corr, c["ops"], "compile_matrix", cfgs=(c.get("cfg", "dbg"),), compile_is_violation=True)
         return corr
     if c.get("raw"):
         return evaluate(ctx, [], [], [], [], {}, sizeof=False, raw=[r for r in RAW if r[0] == c["raw"]])
